@@ -283,6 +283,7 @@ type seqSide struct {
 	eps   []conn.Endpoint
 	sbufs [][]byte // backing arrays of the send buffers, reused
 	dead  bool
+	rxErr string // a receive function returned this error although datagrams were waiting
 }
 
 func openSeqSide(disable bool) (*seqSide, error) {
@@ -329,6 +330,12 @@ func (s *seqSide) recvOnce(fam string) ([]rxItem, bool) {
 	}()
 	n, err := s.fns[idx](s.rbufs, s.sizes, s.eps)
 	close(done)
+	if err != nil && !s.dead {
+		// the receive function failed by itself (not because the watchdog closed the
+		// bind): whatever that read took from the socket is gone
+		s.rxErr = err.Error()
+		return nil, false
+	}
 	if err != nil || s.dead {
 		s.dead = true
 		return nil, false
@@ -411,6 +418,9 @@ func runScript(pass, fam string, steps []lbStep) (fail *lbFailure, lossy bool, s
 		var got []rxItem
 		for len(got) < len(want) {
 			items, ok := rx.recvOnce(fam)
+			if !ok && rx.rxErr != "" {
+				return mk(got, len(got), "the receive function returned an error with datagrams waiting: "+rx.rxErr), false, ""
+			}
 			if !ok {
 				return nil, true, ""
 			}
